@@ -26,6 +26,9 @@ func VP_C10_text() {
 		{"($u = user, $u.name)", []string{"user", "$u.name"}, []string{"user"}},
 		{"f(x!.y, [z . w])", []string{"x.y", "z.w"}, []string{"x.y", "z.w"}},
 		{"typeof o!.p === 'string' ? o.p : q", []string{"o.p", "q"}, []string{"o.p", "q"}},
+		{"($p = person, $p.name + $p.address.city + suffix)", []string{"person", "$p.name", "$p.address.city", "suffix"}, []string{"person", "suffix"}},
+		{"$row.total > limit ? $row.total : limit", []string{"$row.total", "limit"}, []string{"limit"}},
+		{"price * qty", []string{"price", "qty"}, []string{"price", "qty"}},
 	}
 	p := pool[vpChoice("f", len(pool))]
 	code, err := ParseSourceCode([]byte(p.text))
@@ -33,10 +36,28 @@ func VP_C10_text() {
 	if err != nil {
 		return
 	}
+	// history: another analysis (refused part-way, or successful) ran before; the result must not depend on it
+	switch vpChoice("pre", 4) {
+	case 1:
+		if c0, perr := ParseSourceCode([]byte("leaked + other.path + sum(x).total")); perr == nil {
+			_, e0 := ResolveReferenceFields(c0)
+			_, e0n := ResolveReferenceFieldsNotLocal(c0)
+			vpAssert("C10/text/member-access-on-call-refused", e0 != nil && e0n != nil)
+		}
+	case 2:
+		if c0, perr := ParseSourceCode([]byte("earlier.one + $loc + two")); perr == nil {
+			ResolveReferenceFields(c0)
+			ResolveReferenceFieldsNotLocal(c0)
+		}
+	case 3:
+		if c0, perr := ParseSourceCode([]byte("[stale, (1+2).k]")); perr == nil {
+			ResolveReferenceFieldsNotLocal(c0)
+		}
+	}
 	got, e1 := ResolveReferenceFields(code)
 	gotNL, e2 := ResolveReferenceFieldsNotLocal(code)
 	vpAssert("C10/text/no-error", e1 == nil && e2 == nil)
-	vpAssert("C10/text/exact-set", vpSameSetModulo(got, p.want, []string{"$u"}) && vpNoDup(got))
+	vpAssert("C10/text/exact-set", vpSameSetModulo(got, p.want, []string{"$u", "$p"}) && vpNoDup(got))
 	vpAssert("C10/text/not-local-variant", vpSameSetModulo(gotNL, p.nl, nil) && vpNoDup(gotNL))
 	vpReach("C10/text/done")
 }
